@@ -211,6 +211,68 @@ pub open spec fn px_pushed<W>(a: Seq<Ev<W>>, b: Seq<Ev<W>>) -> bool {
     b.len() == a.len() + 1 && b.drop_last() == a && b.last() is Px
 }
 
+/// `b` is `a` followed by more events.
+pub open spec fn trace_extends<W>(a: Seq<Ev<W>>, b: Seq<Ev<W>>) -> bool {
+    a.len() <= b.len() && (forall|i: int| 0 <= i < a.len() ==> #[trigger] b[i] == a[i])
+}
+/// What a MIPI-DCS controller has been told so far (section 3.2), as far as the properties need it.
+pub struct Ctrl {
+    /// sleep state: asleep after reset / 0x10, awake after 0x11
+    pub sleeping: bool,
+    /// display on (parameterless 0x29) / off (0x28, reset)
+    pub on: bool,
+    /// last address mode (0x36 with one parameter)
+    pub madctl: Option<u8>,
+    /// last interface pixel format (0x3A with one parameter)
+    pub colmod: Option<u8>,
+    /// last of 0x20 / 0x21
+    pub inverted: Option<bool>,
+    /// number of memory-write commands and pixel bursts
+    pub px: nat,
+    /// number of software resets
+    pub resets: nat,
+    /// number of commands
+    pub cmds: nat,
+}
+pub open spec fn ctrl_init() -> Ctrl {
+    Ctrl { sleeping: true, on: false, madctl: None, colmod: None, inverted: None, px: 0, resets: 0, cmds: 0 }
+}
+pub open spec fn ctrl_step<W>(c: Ctrl, e: Ev<W>) -> Ctrl {
+    match e {
+        Ev::Cmd(op, p) => {
+            let c = Ctrl { cmds: c.cmds + 1, ..c };
+            if op == 0x01u8 && p.len() == 0 { Ctrl { sleeping: true, on: false, resets: c.resets + 1, ..c } }
+            else if op == 0x10u8 && p.len() == 0 { Ctrl { sleeping: true, ..c } }
+            else if op == 0x11u8 && p.len() == 0 { Ctrl { sleeping: false, ..c } }
+            else if op == 0x28u8 && p.len() == 0 { Ctrl { on: false, ..c } }
+            else if op == 0x29u8 && p.len() == 0 { Ctrl { on: true, ..c } }
+            else if op == 0x20u8 && p.len() == 0 { Ctrl { inverted: Some(false), ..c } }
+            else if op == 0x21u8 && p.len() == 0 { Ctrl { inverted: Some(true), ..c } }
+            else if op == 0x36u8 && p.len() == 1 { Ctrl { madctl: Some(p[0]), ..c } }
+            else if op == 0x3Au8 && p.len() == 1 { Ctrl { colmod: Some(p[0]), ..c } }
+            else if op == 0x2Cu8 || op == 0x3Cu8 { Ctrl { px: c.px + 1, ..c } }
+            else { c }
+        },
+        Ev::Px(_) => Ctrl { px: c.px + 1, ..c },
+        Ev::Fault => c,
+    }
+}
+/// the controller state after a trace
+pub open spec fn ctrl<W>(t: Seq<Ev<W>>) -> Ctrl
+    decreases t.len()
+{
+    if t.len() == 0 { ctrl_init() } else { ctrl_step(ctrl(t.drop_last()), t.last()) }
+}
+pub broadcast proof fn lemma_ctrl_push<W>(t: Seq<Ev<W>>, e: Ev<W>)
+    ensures #[trigger] ctrl(t.push(e)) == ctrl_step(ctrl(t), e)
+{
+    assert(t.push(e).drop_last() == t);
+    assert(t.push(e).last() == e);
+}
+pub broadcast group group_trace {
+    lemma_ctrl_push,
+}
+
 // ------------------------------------------------------------------------- orientation geometry
 pub open spec fn spec_degree(r: Rotation) -> int {
     match r { Rotation::Deg0 => 0, Rotation::Deg90 => 90, Rotation::Deg180 => 180, Rotation::Deg270 => 270 }
